@@ -33,6 +33,11 @@ NS_DICTS = [
 ]
 
 
+DOC_PREFIXES = [{"ex": "http://ex.org/ns/"}, {"": "http://ex.org/", "xsd": "http://other.org/v#"},
+                {"a": "https://data.example/", "ns": "http://ex.org/", "b": "http://other.org/v#"},
+                {"weso-s": "http://ex.org/", "shapes": "http://ex.org/ns/", "rdf": "http://ex.org/"}]
+
+
 @st.composite
 def cases(draw):
     g = draw(gg.general(inst_props=(RDF_TYPE, RDF_TYPE, RDF_TYPE, "http://ex.org/isA"), quirks=draw(gg.quirk_set(one_in=4))))
@@ -54,11 +59,19 @@ def cases(draw):
         val = draw(st.sampled_from(NS_DICTS))
     elif opt == "shapes_namespace":
         val = draw(st.sampled_from(["http://my.shapes/ns/", "http://ex.org/shapes#"]))
+    doc_prefixes = None
+    if opt in ("namespaces_dict", "shapes_namespace", "disable_comments") and draw(st.integers(0, 2)) == 0:
+        # the graph arrives as an rdflib Graph carrying its own prefix bindings, some of them using a label that the
+        # namespaces_dict under test binds to another namespace (the user's binding has priority, nothing else may change)
+        doc_prefixes = draw(st.sampled_from(DOC_PREFIXES))
     if opt == "file_output" and draw(st.integers(0, 7)) == 0:
         # outputs above 5 000 / 10 000 lines cross the serializer's buffer flush once / twice
         g = {"big": draw(st.sampled_from([800, 1500]))}
         target = {"mode": "all"}
-    return {"g": g, "cfg": cfg, "target": target, "thr": thr, "option": opt, "value": val}
+    case = {"g": g, "cfg": cfg, "target": target, "thr": thr, "option": opt, "value": val}
+    if doc_prefixes and "big" not in g:
+        case["doc_prefixes"] = doc_prefixes
+    return case
 
 
 def strategy(tier):
@@ -120,6 +133,14 @@ def check(case):
         kw2[opt] = False
     else:
         kw2[opt] = not cfg.get(opt, {"all_instances_are_compliant_mode": True, "allow_opt_cardinality": True}.get(opt, False))
+    if case.get("doc_prefixes"):
+        from ..rdfmodel import to_rdflib
+        for k_ in (kw, kw2):
+            k_.pop("raw_graph", None)
+            gr = to_rdflib(common.doc_triples(case, triples))
+            for lab_, ns_ in case["doc_prefixes"].items():
+                gr.bind(lab_, ns_, override=True, replace=True)
+            k_["rdflib_graph"] = gr
     out1, c1 = sut.shex(kw, acceptance_threshold=thr)
     if file_mode:
         with sut.tmpdir() as d:
@@ -144,10 +165,16 @@ def check(case):
         if opt == "file_output":
             return violation("the file written is not the text returned as string: the string parses, the file does not (%s); "
                              "%d lines in the file, %d in the string" % (e, out2.count("\n"), out1.count("\n")), {"opt:" + opt}, True)
+        if opt in ("disable_comments", "decimals", "instances_report_mode", "namespaces_dict"):
+            # a presentation option turned a readable schema into an unreadable one: its constraints are not the same any more
+            return violation("with %s=%r the output is no longer readable as ShExC (%s) while the output without it is\n--- without ---\n%s\n--- with ---\n%s" % (
+                opt, val, e, out1[:1500], out2[:1500]), {"opt:" + opt}, True)
         return discard("unparsable-output")
     if "__dup_labels__" in a or "__dup_labels__" in b:
         return discard("label-collision")
     labels = {"opt:" + opt}
+    if case.get("doc_prefixes"):
+        labels.add("rdflib-graph-with-own-prefixes")
     strip = opt == "shapes_namespace"
     sa, sb = structure(a, strip), structure(b, strip)
 
